@@ -15,6 +15,7 @@ import (
 	"math/rand"
 	"os"
 	"path/filepath"
+	"regexp"
 	"sort"
 	"strings"
 	"time"
@@ -220,6 +221,22 @@ type shape struct {
 type program struct {
 	shapes []*shape
 	n      int
+	// named: every integer type is replaced by a defined type with the same
+	// underlying type (type n_int64 int64): same arithmetic, different paths in the
+	// compiler (everything that looks at the type without taking Underlying()).
+	named bool
+}
+
+var builtinInt = regexp.MustCompile(`\bu?int(8|16|32|64)\b|\bt(Int|Uint|Uptr)\b`)
+
+// withNamedTypes rewrites a rendered program to use defined types throughout.
+func withNamedTypes(src string) string {
+	src = builtinInt.ReplaceAllString(src, "n_$0")
+	var b strings.Builder
+	for _, t := range []string{"int8", "int16", "int32", "int64", "uint8", "uint16", "uint32", "uint64", "tInt", "tUint", "tUptr"} {
+		fmt.Fprintf(&b, "type n_%s %s\n", t, t)
+	}
+	return strings.Replace(src, "package main\n\n", "package main\n\n"+b.String()+"\n", 1)
 }
 
 func renderProgram(p *program) gjs.Prog {
@@ -269,7 +286,11 @@ func renderProgram(p *program) gjs.Prog {
 		fmt.Fprintf(&b, "\tr%d()\n", i)
 	}
 	b.WriteString("}\n")
-	return gjs.Prog{Files: map[string]string{"main.go": b.String(), "types_js.go": typesJS, "types_native.go": typesNative}}
+	src := b.String()
+	if p.named {
+		src = withNamedTypes(src)
+	}
+	return gjs.Prog{Files: map[string]string{"main.go": src, "types_js.go": typesJS, "types_native.go": typesNative}}
 }
 
 // classify returns the known-finding classifier keys a failing record satisfies.
@@ -439,8 +460,14 @@ func Run(c *core.Ctx, pool *gjs.Pool) {
 	if cur.n > 0 {
 		progs = append(progs, cur)
 	}
+	// every program is also run with defined (named) integer types
+	for _, p := range append([]*program{}, progs...) {
+		progs = append(progs, &program{shapes: p.shapes, n: p.n, named: true})
+	}
 	c.Set("programs", len(progs))
+	c.Set("programs_with_named_types", len(progs)/2)
 	type group struct {
+		named bool
 		keys  []string
 		first *rec
 		got   string
@@ -496,7 +523,7 @@ func Run(c *core.Ctx, pool *gjs.Pool) {
 				gk := s.code + "|" + strings.Join(s.ptypes, ",")
 				g := groups[gk]
 				if g == nil {
-					g = &group{keys: keys, first: rc, got: js, shape: s}
+					g = &group{keys: keys, first: rc, got: js, shape: s, named: p.named}
 					groups[gk] = g
 				}
 				g.count++
@@ -513,7 +540,7 @@ func Run(c *core.Ctx, pool *gjs.Pool) {
 		nd += d
 	}
 	c.Set("spec_guard_discards", nd)
-	c.Set("traces_validated_against_impl", total-nd)
+	c.Set("traces_validated_against_impl", 2*total-nd)
 	if nd > 0 {
 		fmt.Printf("note: %d cases discarded because the reference toolchain disagrees with the specification\n", nd)
 	}
@@ -527,7 +554,7 @@ func Run(c *core.Ctx, pool *gjs.Pool) {
 			g := groups[gk]
 			var ps []*Expr
 			g.first.e.render(&ps)
-			mini := &program{shapes: []*shape{{code: g.shape.code, ptypes: g.shape.ptypes, rtype: g.shape.rtype, mayPanic: g.shape.mayPanic, rows: []*rec{g.first}, args: [][]*Expr{ps}}}, n: 1}
+			mini := &program{shapes: []*shape{{code: g.shape.code, ptypes: g.shape.ptypes, rtype: g.shape.rtype, mayPanic: g.shape.mayPanic, rows: []*rec{g.first}, args: [][]*Expr{ps}}}, n: 1, named: g.named}
 			files := renderProgram(mini).ReplayFiles("prog")
 			files["scenario.json"] = g.first.raw + "\n"
 			files["expected.txt"] = g.first.want + "\n"
@@ -537,7 +564,7 @@ func Run(c *core.Ctx, pool *gjs.Pool) {
 				vals = append(vals, goLit(p.Limbs, p.Type))
 			}
 			c.Report(core.Case{Keys: g.keys,
-				Summary: fmt.Sprintf("%s with (%s): Go/spec = %s, compiled program printed %s (%d operand rows of this shape differ)", g.shape.code, strings.Join(vals, ", "), g.first.want, g.got, g.count),
+				Summary: fmt.Sprintf("%s%s with (%s): Go/spec = %s, compiled program printed %s (%d operand rows of this shape differ)", map[bool]string{true: "[operands of defined types n_T over the builtin integer types] ", false: ""}[g.named], g.shape.code, strings.Join(vals, ", "), g.first.want, g.got, g.count),
 				Files:   files})
 		}
 	}
